@@ -17,9 +17,9 @@ RULE = ("Hypothesis-generated non-commuting problems: constant and explicitly ti
 TECHNIQUE = "Hypothesis property-based differential testing of two library routes at two truncation tolerances"
 LEVEL_TEXT = ("Every generated case runs TEMPO and PT-TEMPO+compute_dynamics at two tolerances and compares all intermediate "
               "states; agreement must be within c_T (N+1) eps + 1e-7 at each tolerance (c_T=1000, calibrated with a 14x "
-              "margin). Exploration at small sizes on conditioned inputs (D<=5).")
+              "margin). Exploration at small sizes on conditioned inputs (D<=3.5).")
 LEVEL_NOTE = "Differential oracle: a defect common to both routes is invisible here (C01 and C03 anchor both routes to independent references)."
-ASSUMPTIONS = ["TEMPO inputs are conditioned (D <= 5) and size-coupled as in DESIGN section 4"]
+ASSUMPTIONS = ["TEMPO inputs are conditioned (D <= 3.5) and size-coupled as in DESIGN section 4"]
 
 
 @st.composite
@@ -45,7 +45,7 @@ def run_case(case):
     first = True
     for eps in (case["eps1"], case["eps2"]):
         p = dict(p0, eps=eps)
-        bath, sd, D, O, V = tempogen.build_bath(b, p, d)
+        bath, sd, D, O, V = tempogen.build_bath(b, p, d, d_max=case.get("d_max", tempogen.D_MAX))
         if first:
             H0 = gens.herm(case["sys"]["H0"])
             out.nontrivial = bool(np.abs(H0 @ O - O @ H0).max() > 0.1 and D > 0)
